@@ -254,4 +254,227 @@ theorem word_RSR_reaches (m2p : ℝ → ℝ) (hm : Exact m2p) (d α β : ℝ) (P
   · show -Real.cos α + p * Real.sin (α - t) + Real.cos (α - t - q) = 0
     rw [sin_shift e1, cos_shift e2, hs, hY]; ring
 
+/-! ## RSL and LSR -/
+
+/-- RSL reaches the goal when the code's `tmp` is non-negative (in the band `[DUBINS_ZERO, 0)` the
+code clamps `p` to 0 and the identity holds only approximately). -/
+theorem word_RSL_reaches (m2p : ℝ → ℝ) (hm : Exact m2p) (d α β : ℝ) (P : Path ℝ)
+    (hnn : 0 ≤ d * d - 2 + 2 * (Real.cos α * Real.cos β + Real.sin α * Real.sin β - d * (Real.sin α + Real.sin β)))
+    (h : dubinsRSL m2p d α β = some P) : Reaches P .RSL d α β := by
+  unfold dubinsRSL at h
+  simp only [cos_eq, sin_eq, atan2_eq, sqrt_eq, max_eq, ofNat_two, ofNat_zero] at h
+  split at h
+  case isFalse => cases h
+  obtain rfl := Option.some.inj h
+  clear h
+  rw [max_eq_left hnn]
+  set X := d - Real.sin α - Real.sin β with hX
+  set Y := Real.cos α + Real.cos β with hY
+  have htmp : d * d - 2 + 2 * (Real.cos α * Real.cos β + Real.sin α * Real.sin β - d * (Real.sin α + Real.sin β)) =
+      X ^ 2 + Y ^ 2 - 4 := by
+    rw [hX, hY]
+    linear_combination (-1 : ℝ) * Real.sin_sq_add_cos_sq α - Real.sin_sq_add_cos_sq β
+  rw [htmp] at hnn ⊢
+  have hp2 : X ^ 2 + Y ^ 2 = Real.sqrt (X ^ 2 + Y ^ 2 - 4) ^ 2 + 2 ^ 2 := by
+    rw [Real.sq_sqrt hnn]; ring
+  obtain ⟨hx, hy⟩ := csc_rot X Y (Real.sqrt (X ^ 2 + Y ^ 2 - 4)) 2 hp2 two_ne_zero
+  generalize Real.sqrt (X ^ 2 + Y ^ 2 - 4) = p at *
+  generalize Complex.arg ⟨X, Y⟩ - Complex.arg ⟨p, 2⟩ = θ at *
+  obtain ⟨k1, hk1⟩ := hm (α - θ)
+  obtain ⟨k2, hk2⟩ := hm (β - θ)
+  generalize m2p (α - θ) = t at *
+  generalize m2p (β - θ) = q at *
+  refine ⟨rfl, rfl, ?_⟩
+  rw [end_RSL]
+  have e1 : α - t = θ + ((-k1 : ℤ) : ℝ) * (2 * Real.pi) := by rw [hk1]; push_cast; ring
+  have e2 : α - t + q = β + ((k2 - k1 : ℤ) : ℝ) * (2 * Real.pi) := by rw [hk1, hk2]; push_cast; ring
+  refine ⟨?_, ?_, k2 - k1, e2⟩
+  · show Real.sin α + (p * Real.cos (α - t) - 2 * Real.sin (α - t)) + Real.sin (α - t + q) = d
+    rw [cos_shift e1, sin_shift e1, sin_shift e2, hx, hX]; ring
+  · show -Real.cos α + (p * Real.sin (α - t) + 2 * Real.cos (α - t)) - Real.cos (α - t + q) = 0
+    rw [cos_shift e1, sin_shift e1, cos_shift e2, hy, hY]; ring
+
+/-- LSR reaches the goal when the code's `tmp` is non-negative. -/
+theorem word_LSR_reaches (m2p : ℝ → ℝ) (hm : Exact m2p) (d α β : ℝ) (P : Path ℝ)
+    (hnn : 0 ≤ -2 + d * d + 2 * (Real.cos α * Real.cos β + Real.sin α * Real.sin β + d * (Real.sin α + Real.sin β)))
+    (h : dubinsLSR m2p d α β = some P) : Reaches P .LSR d α β := by
+  unfold dubinsLSR at h
+  simp only [cos_eq, sin_eq, atan2_eq, sqrt_eq, max_eq, ofNat_two, ofNat_zero] at h
+  split at h
+  case isFalse => cases h
+  obtain rfl := Option.some.inj h
+  clear h
+  rw [max_eq_left hnn]
+  set X := d + Real.sin α + Real.sin β with hX
+  set Y := -Real.cos α - Real.cos β with hY
+  have htmp : -2 + d * d + 2 * (Real.cos α * Real.cos β + Real.sin α * Real.sin β + d * (Real.sin α + Real.sin β)) =
+      X ^ 2 + Y ^ 2 - 4 := by
+    rw [hX, hY]
+    linear_combination (-1 : ℝ) * Real.sin_sq_add_cos_sq α - Real.sin_sq_add_cos_sq β
+  rw [htmp] at hnn ⊢
+  have hp2 : X ^ 2 + Y ^ 2 = Real.sqrt (X ^ 2 + Y ^ 2 - 4) ^ 2 + (-2) ^ 2 := by
+    rw [Real.sq_sqrt hnn]; ring
+  obtain ⟨hx, hy⟩ := csc_rot X Y (Real.sqrt (X ^ 2 + Y ^ 2 - 4)) (-2) hp2 (by norm_num)
+  generalize Real.sqrt (X ^ 2 + Y ^ 2 - 4) = p at *
+  generalize Complex.arg ⟨X, Y⟩ - Complex.arg ⟨p, -2⟩ = θ at *
+  obtain ⟨k1, hk1⟩ := hm (-α + θ)
+  obtain ⟨k2, hk2⟩ := hm (-β + θ)
+  generalize m2p (-α + θ) = t at *
+  generalize m2p (-β + θ) = q at *
+  refine ⟨rfl, rfl, ?_⟩
+  rw [end_LSR]
+  have e1 : α + t = θ + ((k1 : ℤ) : ℝ) * (2 * Real.pi) := by rw [hk1]; ring
+  have e2 : α + t - q = β + ((k1 - k2 : ℤ) : ℝ) * (2 * Real.pi) := by rw [hk1, hk2]; push_cast; ring
+  refine ⟨?_, ?_, k1 - k2, e2⟩
+  · show -Real.sin α + (p * Real.cos (α + t) + 2 * Real.sin (α + t)) - Real.sin (α + t - q) = d
+    rw [cos_shift e1, sin_shift e1, sin_shift e2]; linear_combination hx + hX
+  · show Real.cos α + (p * Real.sin (α + t) - 2 * Real.cos (α + t)) + Real.cos (α + t - q) = 0
+    rw [cos_shift e1, sin_shift e1, cos_shift e2]; linear_combination hy + hY
+
+/-! ## RLR and LRL -/
+
+/-- the middle-arc identity of the CCC words: with `r² = X² + Y²`, `cos p = 1 - r²/8`, `p ∈ (π, 2π)`,
+`θ = atan2 (Y, X)`: the chord of an arc of angle `p` on a radius-2 circle, bisected by direction `θ`. -/
+theorem ccc_core (X Y tmp : ℝ) (h : tmp = 1 - (X ^ 2 + Y ^ 2) / 8) (habs : |tmp| < 1) :
+    2 * Real.sin (Complex.arg ⟨X, Y⟩ + 1 / 2 * (2 * Real.pi - Real.arccos tmp)) -
+      2 * Real.sin (Complex.arg ⟨X, Y⟩ - 1 / 2 * (2 * Real.pi - Real.arccos tmp)) = X ∧
+    -2 * Real.cos (Complex.arg ⟨X, Y⟩ + 1 / 2 * (2 * Real.pi - Real.arccos tmp)) +
+      2 * Real.cos (Complex.arg ⟨X, Y⟩ - 1 / 2 * (2 * Real.pi - Real.arccos tmp)) = Y := by
+  obtain ⟨hlo, hhi⟩ := abs_lt.mp habs
+  have hcos : Real.cos (2 * Real.pi - Real.arccos tmp) = tmp := by
+    rw [Real.cos_two_pi_sub, Real.cos_arccos hlo.le hhi.le]
+  have ha0 := Real.arccos_nonneg tmp
+  have ha1 := Real.arccos_le_pi tmp
+  have hpi := Real.pi_pos
+  set u := 1 / 2 * (2 * Real.pi - Real.arccos tmp) with hu
+  have h2u : 2 * Real.pi - Real.arccos tmp = 2 * u := by rw [hu]; ring
+  rw [h2u, Real.cos_two_mul] at hcos
+  have hsin0 : 0 ≤ Real.sin u :=
+    Real.sin_nonneg_of_nonneg_of_le_pi (by rw [hu]; linarith) (by rw [hu]; linarith)
+  have hsq : (4 * Real.sin u) ^ 2 = X ^ 2 + Y ^ 2 := by
+    have := Real.sin_sq_add_cos_sq u
+    nlinarith
+  have hr : Real.sqrt (X ^ 2 + Y ^ 2) = 4 * Real.sin u := by
+    rw [← hsq, Real.sqrt_sq (by linarith)]
+  obtain ⟨hc, hs⟩ := polar X Y
+  rw [hr] at hc hs
+  rw [Real.sin_add, Real.sin_sub, Real.cos_add, Real.cos_sub]
+  constructor
+  · linear_combination hc
+  · linear_combination hs
+
+theorem word_RLR_reaches (m2p : ℝ → ℝ) (hm : Exact m2p) (d α β : ℝ) (P : Path ℝ)
+    (h : dubinsRLR m2p d α β = some P) : Reaches P .RLR d α β := by
+  unfold dubinsRLR at h
+  simp only [cos_eq, sin_eq, atan2_eq, acos_eq, abs_eq, ofNat_two, ofNat_six, ofNat_one, ofDec_125_3, twopi_eq,
+    half_eq] at h
+  split at h
+  case isFalse => cases h
+  rename_i habs
+  obtain rfl := Option.some.inj h
+  clear h
+  set X := d - Real.sin α + Real.sin β with hX
+  set Y := Real.cos α - Real.cos β with hY
+  have htmp : 1 / 8 * (6 - d * d + 2 * (Real.cos α * Real.cos β + Real.sin α * Real.sin β + d * (Real.sin α - Real.sin β))) =
+      1 - (X ^ 2 + Y ^ 2) / 8 := by
+    rw [hX, hY]
+    linear_combination (1 / 8 : ℝ) * Real.sin_sq_add_cos_sq α + (1 / 8 : ℝ) * Real.sin_sq_add_cos_sq β
+  obtain ⟨hx, hy⟩ := ccc_core X Y _ htmp habs
+  generalize 1 / 8 * (6 - d * d + 2 * (Real.cos α * Real.cos β + Real.sin α * Real.sin β + d * (Real.sin α - Real.sin β))) = tmp at *
+  generalize Complex.arg ⟨X, Y⟩ = θ at *
+  generalize 2 * Real.pi - Real.arccos tmp = p at *
+  obtain ⟨k1, hk1⟩ := hm (α - θ + 1 / 2 * p)
+  generalize m2p (α - θ + 1 / 2 * p) = t at *
+  obtain ⟨k2, hk2⟩ := hm (α - β - t + p)
+  generalize m2p (α - β - t + p) = q at *
+  refine ⟨rfl, rfl, ?_⟩
+  rw [end_RLR]
+  have e0 : α - t = θ - 1 / 2 * p + ((-k1 : ℤ) : ℝ) * (2 * Real.pi) := by rw [hk1]; push_cast; ring
+  have e1 : α - t + p = θ + 1 / 2 * p + ((-k1 : ℤ) : ℝ) * (2 * Real.pi) := by rw [hk1]; push_cast; ring
+  have e2 : α - t + p - q = β + ((-k2 : ℤ) : ℝ) * (2 * Real.pi) := by rw [hk2]; push_cast; ring
+  refine ⟨?_, ?_, -k2, e2⟩
+  · show Real.sin α + (2 * Real.sin (α - t + p) - 2 * Real.sin (α - t)) - Real.sin (α - t + p - q) = d
+    rw [sin_shift e0, sin_shift e1, sin_shift e2, hx, hX]; ring
+  · show -Real.cos α + (-2 * Real.cos (α - t + p) + 2 * Real.cos (α - t)) + Real.cos (α - t + p - q) = 0
+    rw [cos_shift e0, cos_shift e1, cos_shift e2, hy, hY]; ring
+
+theorem word_LRL_reaches (m2p : ℝ → ℝ) (hm : Exact m2p) (d α β : ℝ) (P : Path ℝ)
+    (h : dubinsLRL m2p d α β = some P) : Reaches P .LRL d α β := by
+  unfold dubinsLRL at h
+  simp only [cos_eq, sin_eq, atan2_eq, acos_eq, abs_eq, ofNat_two, ofNat_six, ofNat_one, ofDec_125_3, twopi_eq,
+    half_eq] at h
+  split at h
+  case isFalse => cases h
+  rename_i habs
+  obtain rfl := Option.some.inj h
+  clear h
+  set X := d + Real.sin α - Real.sin β with hX
+  set Y := -Real.cos α + Real.cos β with hY
+  have htmp : 1 / 8 * (6 - d * d + 2 * (Real.cos α * Real.cos β + Real.sin α * Real.sin β - d * (Real.sin α - Real.sin β))) =
+      1 - (X ^ 2 + Y ^ 2) / 8 := by
+    rw [hX, hY]
+    linear_combination (1 / 8 : ℝ) * Real.sin_sq_add_cos_sq α + (1 / 8 : ℝ) * Real.sin_sq_add_cos_sq β
+  obtain ⟨hx, hy⟩ := ccc_core X Y _ htmp habs
+  generalize 1 / 8 * (6 - d * d + 2 * (Real.cos α * Real.cos β + Real.sin α * Real.sin β - d * (Real.sin α - Real.sin β))) = tmp at *
+  generalize Complex.arg ⟨X, Y⟩ = θ at *
+  generalize 2 * Real.pi - Real.arccos tmp = p at *
+  obtain ⟨k1, hk1⟩ := hm (-α + θ + 1 / 2 * p)
+  generalize m2p (-α + θ + 1 / 2 * p) = t at *
+  obtain ⟨k2, hk2⟩ := hm (β - α - t + p)
+  generalize m2p (β - α - t + p) = q at *
+  refine ⟨rfl, rfl, ?_⟩
+  rw [end_LRL]
+  have e0 : α + t = θ + 1 / 2 * p + ((k1 : ℤ) : ℝ) * (2 * Real.pi) := by rw [hk1]; ring
+  have e1 : α + t - p = θ - 1 / 2 * p + ((k1 : ℤ) : ℝ) * (2 * Real.pi) := by rw [hk1]; ring
+  have e2 : α + t - p + q = β + ((k2 : ℤ) : ℝ) * (2 * Real.pi) := by rw [hk2]; ring
+  refine ⟨?_, ?_, k2, e2⟩
+  · show -Real.sin α + (-2 * Real.sin (α + t - p) + 2 * Real.sin (α + t)) + Real.sin (α + t - p + q) = d
+    rw [sin_shift e0, sin_shift e1, sin_shift e2]; linear_combination hx + hX
+  · show Real.cos α + (2 * Real.cos (α + t - p) - 2 * Real.cos (α + t)) - Real.cos (α + t - p + q) = 0
+    rw [cos_shift e0, cos_shift e1, cos_shift e2]; linear_combination hy + hY
+
+/-! ## segment lengths are non-negative -/
+
+theorem word_lengths_nonneg (m2p : ℝ → ℝ) (hm : ∀ x, 0 ≤ m2p x) (w : Word) (d α β : ℝ) (P : Path ℝ)
+    (h : solve m2p w d α β = some P) : 0 ≤ P.t ∧ 0 ≤ P.p ∧ 0 ≤ P.q := by
+  have hacos : ∀ x : ℝ, 0 ≤ 2 * Real.pi - Real.arccos x := fun x => by
+    have := Real.arccos_le_pi x; have := Real.pi_pos; linarith
+  cases w <;> simp only [solve] at h
+  · unfold dubinsLSL at h
+    simp only [sqrt_eq] at h
+    split at h
+    case isFalse => cases h
+    obtain rfl := Option.some.inj h
+    exact ⟨hm _, Real.sqrt_nonneg _, hm _⟩
+  · unfold dubinsRSR at h
+    simp only [sqrt_eq] at h
+    split at h
+    case isFalse => cases h
+    obtain rfl := Option.some.inj h
+    exact ⟨hm _, Real.sqrt_nonneg _, hm _⟩
+  · unfold dubinsRSL at h
+    simp only [sqrt_eq] at h
+    split at h
+    case isFalse => cases h
+    obtain rfl := Option.some.inj h
+    exact ⟨hm _, Real.sqrt_nonneg _, hm _⟩
+  · unfold dubinsLSR at h
+    simp only [sqrt_eq] at h
+    split at h
+    case isFalse => cases h
+    obtain rfl := Option.some.inj h
+    exact ⟨hm _, Real.sqrt_nonneg _, hm _⟩
+  · unfold dubinsRLR at h
+    simp only [acos_eq, twopi_eq] at h
+    split at h
+    case isFalse => cases h
+    obtain rfl := Option.some.inj h
+    exact ⟨hm _, hacos _, hm _⟩
+  · unfold dubinsLRL at h
+    simp only [acos_eq, twopi_eq] at h
+    split at h
+    case isFalse => cases h
+    obtain rfl := Option.some.inj h
+    exact ⟨hm _, hacos _, hm _⟩
+
 end OmplModel.Dubins
